@@ -17,5 +17,7 @@ for f in sorted(glob.glob('/verif/evidence/*.json')):
     except Exception as e:
         print("EVIDENCE INVALID",f,str(e)[:200])
 print("evidence files validated")
+jsonschema.validate(json.load(open('/verif/MANIFEST.json')), json.load(open('/root/.vp/MANIFEST.schema.json')))
+print("manifest valid")
 PY
 exit $fail
